@@ -34,8 +34,8 @@ struct PBox { var val; };
 struct Anchor { int64_t dummy; };
 
 struct Obj {
-  var ptr; char kind, how; int slot, owned;
-  int allocated, nfin, nfree, fin_seq, free_seq, stopped_alloc, prog_deleted;
+  var ptr; char kind, how; int slot, owned, owner;
+  int allocated, nfin, nfree, fin_seq, free_seq, stopped_alloc, stopped_del, prog_deleted;
 };
 static struct Obj objs[MAXID];
 static int slot_id[NARENA];
@@ -126,9 +126,12 @@ void __wrap_free(void* p) {
 }
 
 /* ---- helpers ---- */
-__attribute__((noinline)) static void scrub_stack(void) {
-  volatile char buf[49152];
-  memset((void*)buf, 0, sizeof buf);
+/* zero the stack below the caller's frame.  Not instrumented by ASan, so that there are no red zones between the
+   buffer and this function's frame header: the next callee's frame then starts from zeroed memory up to the few words
+   of saved registers/return address of this function (the caller's values, never object addresses). */
+__attribute__((noinline, no_sanitize("address"))) static void scrub_stack(void) {
+  volatile uint64_t buf[8192];
+  for (size_t i = 0; i < 8192; i++) buf[i] = 0;
   __asm__ volatile("" ::: "memory");
 }
 
@@ -200,8 +203,13 @@ static void oracle_final(void) {
     left++;
     if (o->stopped_alloc && o->how != 'w')
       X("sig=KF-C06-stopped line=%zu what=object %d allocated with new/new_root while the collector was stopped was never finalised (fin=%d free=%d)", cur_line, id, o->nfin, o->nfree);
+    else if (o->stopped_del && o->how == 'r')
+      X("sig=KF-C06-stopped line=%zu what=root object %d deleted while the collector was stopped (the del was ignored) was never finalised (fin=%d free=%d)", cur_line, id, o->nfin, o->nfree);
     else if (o->how == 'w' && !o->prog_deleted)
       I("raw object %d never deleted by the program (program obligation)", id);
+    else if (o->how == 'r' && !o->prog_deleted && o->owner >= 0 && objs[o->owner].kind != 'p' &&
+             (objs[o->owner].nfree >= 1) && !objs[o->owner].stopped_del && !(objs[o->owner].how == 'w' && objs[o->owner].stopped_alloc))
+      X("sig=life-left-behind line=%zu what=root object %d owned by object %d, which was finalised, was never deleted by its owner", cur_line, id, o->owner);
     else if (o->how == 'r' && !o->prog_deleted)
       I("root object %d never deleted by the program (program obligation: roots are not swept)", id);
     else
@@ -232,7 +240,8 @@ __attribute__((noinline)) static int do_new(int id, char kind, char how, int slo
   if (kind != 'B') { if (slot < 0 || slot >= NARENA) return 0; }
   if (owned >= 0 && (!objs[owned].allocated || kind == 'p' || kind == 'a')) return 0;
   memset(o, 0, sizeof *o);
-  o->kind = kind; o->how = how; o->slot = slot; o->owned = owned; o->allocated = 1;
+  o->kind = kind; o->how = how; o->slot = slot; o->owned = owned; o->owner = -1; o->allocated = 1;
+  if (owned >= 0) objs[owned].owner = id;
   o->stopped_alloc = !gc->running;
   if (kind == 'B') nB++;
   if (id + 1 > nobjs_alloc) nobjs_alloc = id + 1;
@@ -272,6 +281,7 @@ __attribute__((noinline)) static int do_new(int id, char kind, char how, int slo
 __attribute__((noinline)) static void do_del(int id, char how) {
   var p = objs[id].ptr;
   objs[id].prog_deleted = 1;
+  if (how != 'w' && !the_gc->running) objs[id].stopped_del = 1;   /* GC_Rem ignores it: known finding F23 */
   if (how == 's') del(p); else if (how == 'r') del_root(p); else del_raw(p);
 }
 
